@@ -24,7 +24,7 @@ from concurrent.futures import ThreadPoolExecutor
 VERIF = os.path.dirname(os.path.dirname(os.path.abspath(__file__)))
 REPO = os.environ.get("LEKKERSIM_REPO", "/repo")
 COQ = os.path.join(VERIF, "coq")
-GEN = os.path.join(COQ, "gen")
+GEN = os.environ.get("VERIF_GEN_DIR") or os.path.join(COQ, "gen")   # generated case files (override: parallel scratch runs)
 NPROC = int(os.environ.get("VERIF_JOBS", "16"))
 DEFAULT_SEED = 20260930
 
